@@ -19,11 +19,13 @@ package timer
 //@      && implies(self.tt == nil && chanlen(self.ch) == 1, chanval(self.ch) == self.s && clock() >= due())
 
 //@ func New
+//@   loops 0
 //@   ensures result != nil
 // a new timer: nothing armed, an empty channel that can hold the one immediate delivery of Reset(..., 0)
 //@   ensures [C18] @ready result.tt == nil && result.ch != nil && chancap(result.ch) == 1 && chanlen(result.ch) == 0
 
 //@ func (*Timer).C
+//@   loops 0
 //@   requires inv()
 //@   ensures [C18] @channel result == ite(t.tt == nil, t.ch, t.tt.C)
 //@   modifies nothing
@@ -35,6 +37,7 @@ package timer
 //@   inline
 
 //@ func (*Timer).Reset
+//@   loops 0
 //@   requires inv()
 //@   ensures [C18] @inv inv()
 //@   ensures [C18] @latestEpoch t.Height() == height && t.View() == view
@@ -45,14 +48,17 @@ package timer
 //@   ensures [C18] @notLate implies(d != 0, deadline(t.tt) <= clock() + d)
 //@   modifies *
 //@ func (*Timer).stop
+//@   loops 0
 //@   ensures t.tt == nil
 //@   modifies tt
 //@ func drain
+//@   loops 0
 //@   requires ch != nil && 0 <= chanlen(ch) && chanlen(ch) <= 1
 //@   ensures chanlen(ch) == 0
 //@   modifies $chan.len
 
 //@ func (*Timer).Extend
+//@   loops 0
 //@   requires inv()
 // assumption about callers: accumulated durations stay far from the int64 range
 //@   requires t.d + d <= 4611686018427387904 && t.d + d >= -4611686018427387904
